@@ -71,13 +71,19 @@ func parseEvalConfig(configArg rel.Value) (*EvalConfig, error) {
 	parsedConfig := EvalConfig{}
 	scopes, found := config.Get("scope")
 	if found {
-		parsedConfig.scopes = scopes.(rel.Tuple)
+		parsedConfig.scopes, ok = scopes.(rel.Tuple)
+		if !ok {
+			return nil, errors.Errorf("config.scope must be tuple, not %s", rel.ValueTypeAsString(scopes))
+		}
 	} else {
 		parsedConfig.scopes = rel.EmptyTuple
 	}
 	stdlib, found := config.Get("stdlib")
 	if found {
-		parsedConfig.stdlib = stdlib.(rel.Tuple)
+		parsedConfig.stdlib, ok = stdlib.(rel.Tuple)
+		if !ok {
+			return nil, errors.Errorf("config.stdlib must be tuple, not %s", rel.ValueTypeAsString(stdlib))
+		}
 	}
 	return &parsedConfig, nil
 }
